@@ -87,6 +87,35 @@ Lemma source_5xx_literals_are_the_exclusions :
   filter (fun e => 500 <=? snd (fst e)) nsqd_http_errs = excluded_5xx.
 Proof. vm_compute. reflexivity. Qed.
 
+(* the order in which each handler does the things that matter (first occurrences, source
+   order): size test / body read before the arguments in doPUB, GetTopic only at the end of
+   getTopicFromQuery (after validation), GetExistingTopic (never GetTopic) behind the
+   channel endpoints, PersistMetadata after (un)pause ... - what the model's handlers encode *)
+Definition expected_http_calls : list (string * list string) :=
+  [
+  ("setBlockRateHandler", ["strconv.Atoi"; "FormValue"]);
+  ("freeMemory", []);
+  ("pingHandler", ["IsHealthy"]);
+  ("doInfo", ["os.Hostname"]);
+  ("getExistingTopicFromQuery", ["http_api.NewReqParams"; "http_api.GetTopicChannelArgs"; "GetExistingTopic"]);
+  ("getTopicFromQuery", ["url.ParseQuery"; "protocol.IsValidTopicName"; "GetTopic"]);
+  ("doPUB", ["io.ReadAll"; "io.LimitReader"; "getTopicFromQuery"; "strconv.ParseInt"; "msToDuration"; "NewMessage"; "PutMessage"]);
+  ("doMPUB", ["getTopicFromQuery"; "readMPUB"; "io.LimitReader"; "bufio.NewReader"; "ReadBytes"; "NewMessage"; "PutMessages"]);
+  ("doCreateTopic", ["getTopicFromQuery"]);
+  ("doEmptyTopic", ["http_api.NewReqParams"; "protocol.IsValidTopicName"; "GetExistingTopic"; "Empty"]);
+  ("doDeleteTopic", ["http_api.NewReqParams"; "DeleteExistingTopic"]);
+  ("doPauseTopic", ["http_api.NewReqParams"; "GetExistingTopic"; "UnPause"; "Pause"; "PersistMetadata"]);
+  ("doCreateChannel", ["getExistingTopicFromQuery"; "GetChannel"]);
+  ("doEmptyChannel", ["getExistingTopicFromQuery"; "GetExistingChannel"; "Empty"]);
+  ("doDeleteChannel", ["getExistingTopicFromQuery"; "DeleteExistingChannel"]);
+  ("doPauseChannel", ["getExistingTopicFromQuery"; "GetExistingChannel"; "UnPause"; "Pause"; "PersistMetadata"]);
+  ("doStats", ["http_api.NewReqParams"; "GetStats"]);
+  ("doConfig", ["io.ReadAll"; "io.LimitReader"; "json.Unmarshal"; "lg.ParseLogLevel"; "swapOpts"; "getOptByCfgName"])
+  ]%string.
+
+Lemma http_calls_expected : nsqd_http_calls = expected_http_calls.
+Proof. vm_compute. reflexivity. Qed.
+
 Lemma bool_params_expected :
   nsqd_bool_params = [("true", true); ("1", true); ("false", false); ("0", false)]%string.
 Proof. vm_compute. reflexivity. Qed.
